@@ -78,8 +78,10 @@ class Scheduler:
     def __init__(self, chooser, watched_files=(), watched_mods=(),
                  observe=None, line_points=False, use_cache=True,
                  only_funcs=None, every_switch_costs=False,
-                 workers_first=False) -> None:
+                 workers_first=False, max_points=30000) -> None:
         self.chooser = chooser
+        self.max_points = max_points
+        self.horizon = False
         self.workers_first = workers_first
         self.every_switch_costs = every_switch_costs
         self.only_funcs = only_funcs
@@ -184,6 +186,12 @@ class Scheduler:
             me.frame = sys._getframe(1)
             me.sig = None
         self.points += 1
+        if self.points > self.max_points:
+            # explicit horizon: an execution that never goes quiescent
+            # (unbounded feeding, polling, livelock) is cut off and reported
+            self.horizon = True
+            self._abort_all(me)
+            raise Abort()
         self._reschedule(me)
 
     def _reschedule(self, me: TState) -> None:
